@@ -129,10 +129,10 @@ theorem zerosSkip_drop (c : Cfg) (l : List Nat) :
     nonSep c (l.drop (zerosSkip c l).2) = (nonSep c l).drop (zerosSkip c l).1 := by
   rw [← (zerosSkip_strip c l).2.1, nonSep_take_drop]
 
-theorem manyCoreS_strip (c : Cfg) (scale : Int → Int) (ids : List Nat) (ipN : Nat)
+theorem manyCoreS_bi (c : Cfg) (scale : Int → Int) (ids : List Nat) (ipN : Nat)
     (fraction : Option (List Nat)) (fpMant : Nat) (explicit : Int) (neg : Bool) (step : Nat) (ex0 : Int)
     (endIdx endIdx' nd : Nat) :
-    ImpE (fun r r' => NumRel c r.1 r'.1 ∧ r.1.isNegative = neg ∧ r.2 = endIdx ∧ r'.2 = endIdx')
+    BiE (fun r r' => NumRel c r.1 r'.1 ∧ r.1.isNegative = neg ∧ r.2 = endIdx ∧ r'.2 = endIdx')
       (manyCoreS c scale ids ipN fraction fpMant explicit neg step ex0 endIdx nd)
       (manyCore c.mantissaRadix scale (nonSep c ids) ipN (fraction.map (nonSep c)) fpMant explicit neg step ex0 endIdx'
         true nd) := by
@@ -142,20 +142,16 @@ theorem manyCoreS_strip (c : Cfg) (scale : Int → Int) (ids : List Nat) (ipN : 
   rw [zerosSkip_drop, hz.1] at hu
   simp only [Option.isNone_map, Bool.true_and, ← hu.2.2, ← hu.2.1, ← hu.1]
   simp only [← hz.1]
-  intro r hr
   by_cases hpos : nd > 0
-  · simp only [hpos, if_true] at hr ⊢
-    split at hr
-    · next hc =>
-      simp only [Except.ok.injEq] at hr; subst hr
-      simp only [hc, if_true]
-      exact ⟨_, rfl, by simp [NumRel]⟩
-    · next hc =>
-      simp only [hc, Bool.false_eq_true, if_false]
+  · simp only [hpos, if_true]
+    by_cases hc : (decide ((u64Skip c c.mantissaRadix (List.drop (zerosSkip c ids).2 ids) 0 step).2.2.2 = 0) ||
+        fraction.isNone) = true
+    · simp only [hc, if_true]
+      exact biE_ok (by simp [NumRel])
+    · simp only [hc, Bool.false_eq_true, if_false]
       cases hfr : fraction with
-      | none => simp [hfr] at hr
+      | none => simp only [Option.map_none]; exact biE_err
       | some fd =>
-        simp only [hfr, Except.ok.injEq] at hr; subst hr
         simp only [Option.map_some]
         have hzf := zerosSkip_strip c fd
         by_cases hm0 : (u64Skip c c.mantissaRadix (List.drop (zerosSkip c ids).2 ids) 0 step).2.2.1 = 0
@@ -166,16 +162,15 @@ theorem manyCoreS_strip (c : Cfg) (scale : Int → Int) (ids : List Nat) (ipN : 
           simp only [hm0, if_true] at hu2 ⊢
           simp only [← hu2.2.1, ← hu2.1]
           simp only [← hzf.1]
-          exact ⟨_, rfl, by simp [NumRel]⟩
+          exact biE_ok (by simp [NumRel])
         · have hu2 := u64Skip_strip c c.mantissaRadix fd
             (u64Skip c c.mantissaRadix (List.drop (zerosSkip c ids).2 ids) 0 step).2.2.1
             (u64Skip c c.mantissaRadix (List.drop (zerosSkip c ids).2 ids) 0 step).2.2.2
           simp only [hm0, if_false, List.drop_zero, Nat.zero_add] at hu2 ⊢
           simp only [← hu2.2.1, ← hu2.1]
-          exact ⟨_, rfl, by simp [NumRel]⟩
-  · simp only [hpos, if_false, Except.ok.injEq] at hr ⊢
-    subst hr
-    exact ⟨_, rfl, by simp [NumRel]⟩
+          exact biE_ok (by simp [NumRel])
+  · simp only [hpos, if_false]
+    exact biE_ok (by simp [NumRel])
 
 theorem zerosSkip_at (c : Cfg) (s : List Nat) (i : Nat) :
     zerosPrefix ((nonSep c s).drop (nonSep c (s.take i)).length) = (zerosSkip c (s.drop i)).1 ∧
@@ -187,10 +182,10 @@ theorem zerosSkip_at (c : Cfg) (s : List Nat) (i : Nat) :
   intro x hx
   exact h.2.2 x (by rw [List.getElem?_drop]; exact hx)
 
-theorem manyClosedS_strip (c : Cfg) (scale : Int → Int) (dp : Nat) (s : List Nat) (i : Nat) (ids : List Nat) (ipN : Nat)
+theorem manyClosedS_bi (c : Cfg) (scale : Int → Int) (dp : Nat) (s : List Nat) (i : Nat) (ids : List Nat) (ipN : Nat)
     (fraction : Option (List Nat)) (fpMant : Nat) (explicit : Int) (neg : Bool) (nDigits step : Nat) (ex0 : Int)
     (endIdx endIdx' : Nat) :
-    ImpE (fun r r' => NumRel c r.1 r'.1 ∧ r.1.isNegative = neg ∧ r.2 = endIdx ∧ r'.2 = endIdx')
+    BiE (fun r r' => NumRel c r.1 r'.1 ∧ r.1.isNegative = neg ∧ r.2 = endIdx ∧ r'.2 = endIdx')
       (manyClosedS c scale dp s i ids ipN fraction fpMant explicit neg nDigits step ex0 endIdx)
       (manyClosed c.mantissaRadix scale dp (nonSep c s) (nonSep c (s.take i)).length (nonSep c ids) ipN
         (fraction.map (nonSep c)) fpMant explicit neg nDigits step ex0 endIdx' true) := by
@@ -212,11 +207,11 @@ theorem manyClosedS_strip (c : Cfg) (scale : Int → Int) (dp : Nat) (s : List N
     have h2 := zerosSkip_at c s (i + (zerosSkip c (s.drop i)).2 + 1)
     rw [hidx] at h2
     rw [h2.1]
-    exact manyCoreS_strip c scale ids ipN fraction fpMant explicit neg step ex0 endIdx endIdx' _
+    exact manyCoreS_bi c scale ids ipN fraction fpMant explicit neg step ex0 endIdx endIdx' _
   · simp only [hdp, Bool.false_eq_true, if_false]
     have h2 := zerosSkip_at c s (i + (zerosSkip c (s.drop i)).2)
     rw [h1.2.1] at h2
     rw [h2.1]
-    exact manyCoreS_strip c scale ids ipN fraction fpMant explicit neg step ex0 endIdx endIdx' _
+    exact manyCoreS_bi c scale ids ipN fraction fpMant explicit neg step ex0 endIdx endIdx' _
 
 end LexVerif.Proof.Sep
